@@ -502,3 +502,17 @@ def x01(ctx):
                          "cli/parsefile.go and TLC checks each result against the composition of Sync!First, Pat, Pmt carriage and the multiplexed sections. class = (#signals, results)",
                     trace_module="Trace_X01", sigfn=V.default_sig,
                     assumptions=["not one of the given properties: reported for information; not registered in MANIFEST.json"])
+
+
+# ---------------------------------------------------------------- X02 (spec growth, not a listed property)
+
+@prop("X02", "Trace_X02")
+def x02(ctx):
+    summ = V.gen_traces(ctx, shards=8)
+    V.validate(ctx, "Trace_X02", summ, V.default_sig, par=8)
+    ctx.states = 0
+    return V.finish(ctx, "exploration",
+                    rule="SetAdaptationFieldControl(01|10|11) on packets of every adaptation_field_length 0..183, payload-only, AF-only and completely full fields; TLC checks the result byte for byte "
+                         "against TsPacket!ExpectSetAfc. class = (packet kind, from, to, error)",
+                    trace_module="Trace_X02", sigfn=V.default_sig,
+                    assumptions=["not one of the given properties: the operation is modelled as the library has it; not registered in MANIFEST.json"])
